@@ -358,7 +358,8 @@ def apply_boundary_conditions(
             # Reflect values outside [0, 1] back into the domain
             val = u[..., idx]
             # Use floor division to determine number of reflections
-            n_reflect = np.floor(val).astype(int)
+            # (kept in floating point: an integer cast saturates beyond 2**63)
+            n_reflect = np.floor(val)
             remainder = val - n_reflect
             # Odd number of reflections means we need to flip
             u[..., idx] = np.where(n_reflect % 2 == 0, remainder, 1.0 - remainder)
